@@ -174,11 +174,12 @@ def g_value(rng):
 def g_default(rng, names):
     r = rng.random()
     if r < 0.12:
-        return {"var": rng.choice(names + ["zz", "v"])}
+        # (`g` is the global of the generated programs, `v` a local of every caller: a declared default sees neither)
+        return {"var": rng.choice(names + ["zz", "v", "g", "g"])}
     if r < 0.2:
         return {"l1": lit(g_value(rng))}
     if r < 0.26:
-        return {"l2": [lit(g_value(rng)), {"var": rng.choice(names + ["v"])}]}
+        return {"l2": [lit(g_value(rng)), {"var": rng.choice(names + ["v", "g"])}]}
     return lit(g_value(rng))
 
 
@@ -261,6 +262,19 @@ def g_fn(rng):
         how = "ret-shadows-param"
     rng.shuffle(named) if how != "clash" else None
     return mk_fn(params, rets, pos, named, how, extra, drop, activated=rng.random() < 0.1)
+
+
+def g_fn_big(rng):
+    """unusual but legal: signatures of 10-13 parameters, up to 13 positionals (`$10` sorts before `$2` as a string), position-coded values"""
+    n = rng.choice([10, 11, 12, 13])
+    names = ["x%d" % i for i in range(n)]
+    params = [{"name": nm, "default": lit("D" + nm) if rng.random() < 0.5 else None} for nm in names]
+    k = rng.choice([n, n, n - 1, 11, 10, 3, 0])
+    k = min(k, n)
+    pos = [(i, "P%d" % i) for i in range(k)]
+    named = [(nm, "N" + nm) for nm in names[k:] if rng.random() < 0.5]
+    rng.shuffle(named)
+    return mk_fn(params, [], pos, named, "call")
 
 
 def enum_fn_shapes(max_n):
@@ -856,8 +870,11 @@ def g_act_probe(rng):
     n = rng.choice([1, 2, 2, 2, 3])
     names = rng.sample(["p", "q", "tag", "level", "a"], n)
     pools, params = [], []
+    # half of the programs draw the values of ALL parameters from one small pool (a value passed for one parameter is the
+    # declared default / the running value of another: any comparison that looks at the wrong parameter goes wrong visibly)
+    common = rng.sample(ACT_VALS, 3) if rng.random() < 0.5 else None
     for nm in names:
-        pool = rng.sample(ACT_VALS, rng.choice([2, 2, 3]))
+        pool = list(common) if common else rng.sample(ACT_VALS, rng.choice([2, 2, 3]))
         has_d = rng.random() < 0.65
         d = rng.choice(pool) if has_d and rng.random() < 0.85 else rng.choice(ACT_VALS)
         if has_d and d is None and rng.random() < 0.7:
@@ -903,6 +920,12 @@ def g_act_probe(rng):
     split = rng.randrange(1, ncalls) if rng.random() < 0.25 else ncalls   # calls[split:] are issued by the second caller `hb`
     act = {"flows": flows, "calls": calls, "variant": variant, "split": split, "mvars": [[k_, vj.enc(v)] for k_, v in mvars.items()],
            "pings": rng.choice([1, 2]) if variant == "ping" else 0}
+    if variant == "hold" and rng.random() < 0.35:
+        # the running instance re-assigns one of its parameters after the echo (its own variable: what the instance was STARTED
+        # with — and what a later call is compared with — does not change), to a value other calls pass
+        i = rng.randrange(n)
+        passed = [e["lit"] for c in calls for e in (c["pos"][i:i + 1] + [e_ for k_, e_ in c["named"] if k_ == names[i]]) if "lit" in e]
+        act["reassign"] = [names[i], rng.choice(passed) if passed and rng.random() < 0.8 else vj.enc(rng.choice(pools[i]))]
     return mk_act(act)
 
 
@@ -919,6 +942,8 @@ def mk_act(act):
         if act["variant"] == "ping":
             out += ["  match Ping()", f"  send Out({echo})"]
         else:
+            if act.get("reassign"):
+                out.append(f"  ${act['reassign'][0]} = {render_val(vj.dec(act['reassign'][1]))}")
             out.append("  match Never()")
         out.append("")
     mv = [f"  ${k} = {render_val(vj.dec(v))}" for k, v in act["mvars"]]
@@ -1000,12 +1025,74 @@ def _ref_user_ev(call):
     return ev
 
 
+# --- probes: the second REACH of a call statement.  A call inside a `while` body is executed once per iteration with
+#     arguments that depend on the loop variable / on locals re-assigned in the loop: every iteration's instance must be bound
+#     to THAT iteration's values (arguments evaluated in the caller at the time of the call, defaults per call) and every
+#     `$x = await f(..)` must capture THAT iteration's return value.  Forms: await with capture, start, activate (distinct
+#     values per iteration: distinct activations), a waiting callee resumed after the loop in random order (and restarted
+#     when activated).
+
+def g_loop_probe(rng):
+    n_it = rng.choice([2, 2, 3, 4])
+    down = rng.random() < 0.3
+    d = rng.choice(["d", 7, None, [1, 2], {"k": 1}, False])
+    ret_kind = rng.choice(["ab", "ab", "a", "b1"])
+    ret_src = {"ab": "[$a, $b]", "a": "$a", "b1": "[$b]"}[ret_kind]
+    ivals = list(range(n_it, 0, -1)) if down else list(range(n_it))
+    # argument shapes: (source text with $i / $w, function of (i) giving (a, b))
+    shapes = [("$i", lambda i: (i, d)), ("a=$i", lambda i: (i, d)), ("$i, [$i, \"k\"]", lambda i: (i, [i, "k"])), ("$i, b=$i", lambda i: (i, i)),
+              ("b=\"c\", a=$i", lambda i: (i, "c")), ("$w", lambda i: ([i, "w"], d)), ("$i, $w", lambda i: (i, [i, "w"])), ("$i * 10", lambda i: (i * 10, d)),
+              ("a=$i, b=$w", lambda i: (i, [i, "w"]))]
+    items = []
+    if rng.random() < 0.85:
+        items.append(("await",) + rng.choice(shapes))
+    waiter = None
+    if rng.random() < 0.7 or not items:
+        waiter = (rng.choice(["start", "activate"]),) + rng.choice([s_ for s_ in shapes if not s_[0].startswith("$w")])
+        items.append(waiter)
+    if rng.random() < 0.3:
+        items.append(("await",) + rng.choice(shapes))
+    rng.shuffle(items)
+    src = [f"flow fa $a $b={render_val(d)}", "  send In(a=$a, b=$b)", "  $v = [$a, \"loc\"]", f"  return {ret_src}", "",
+           f"flow fw $a $b={render_val(d)}", "  send InW(a=$a, b=$b)", "  match Go(a=$a)", "  send Late(a=$a, b=$b)", "",
+           "flow main", f"  $i = {ivals[0]}", "  $x = \"none\"", "  $v = \"mine\"",
+           f"  while $i {'> 0' if down else '< ' + str(n_it)}", "    $w = [$i, \"w\"]"]
+    for form, a_src, _ in items:
+        if form == "await":
+            src += [f"    $x = await fa({a_src})", "    send Got(i=$i, x=$x, v=$v)"]
+        else:
+            src.append(f"    {form} fw({a_src})")
+    src += [f"    $i = $i {'- 1' if down else '+ 1'}", "  send Fin(i=$i, x=$x, v=$v)", "  match Never()"]
+    expect, x = [], "none"
+    for i in ivals:
+        for form, _, fn in items:
+            a, b = fn(i)
+            if form == "await":
+                x = {"ab": [a, b], "a": a, "b1": [b]}[ret_kind]
+                expect += [["In", {"a": a, "b": b}], ["Got", {"i": i, "x": x, "v": "mine"}]]
+            else:
+                expect.append(["InW", {"a": a, "b": b}])
+    expect.append(["Fin", {"i": (0 if down else n_it), "x": x, "v": "mine"}])
+    events = []
+    if waiter:
+        order = list(ivals)
+        rng.shuffle(order)
+        for i in order[:rng.choice([1, 2, len(order)])]:
+            a, b = waiter[2](i)
+            events.append({"type": "Go", "a": a})
+            expect.append(["Late", {"a": a, "b": b}])
+            if waiter[0] == "activate":
+                expect.append(["InW", {"a": a, "b": b}])
+    return {"kind": "probe", "tmpl": "loop:" + "+".join(sorted({it[0] for it in items})), "src": "\n".join(src) + "\n", "events": events, "expect": expect}
+
+
 def gen_cases(rng, tier):
     global _TIER
     _TIER = tier
     n_fn, n_e2e, n_probe = (5000, 300, 60) if tier == "quick" else (200000, 10000, 1000)
     cases = enum_fn_shapes(3)
     cases += [g_fn(rng) for _ in range(n_fn)]
+    cases += [g_fn_big(rng) for _ in range(n_fn // 50)]
     modes = [None] * 12 + ["clash", "clash", "surplus", "unknown-named", "dup-named", "reserved"]
     cases += [g_prog(rng, rng.choice(modes)) for _ in range(n_e2e)]
     cases += [g_hist(rng, passed=rng.random() < 0.15) for _ in range(n_e2e if tier == "quick" else n_e2e // 2)]
@@ -1014,6 +1101,7 @@ def gen_cases(rng, tier):
     cases += [g_restart_probe(rng) for _ in range(n_probe)]
     cases += [g_act_probe(rng) for _ in range(5 * n_probe)]
     cases += [g_ref(rng) for _ in range(n_fn // 4)]
+    cases += [g_loop_probe(rng) for _ in range(2 * n_probe)]
     return cases
 
 
@@ -1988,6 +2076,8 @@ def act_tags(act):
         t.append("act:two-callers")
     if any(c["form"] == "start" for c in calls):
         t.append("act:with-start")
+    if act.get("reassign"):
+        t.append("act:instance-reassigns-parameter")
     return sorted(set(t))
 
 
@@ -2034,6 +2124,8 @@ def shrink(case):
                 yield mk_act(dict(a, calls=a["calls"][:i] + a["calls"][i + 1:], split=(a["split"] - 1 if i < a["split"] else a["split"]) if a["split"] < nc else nc - 1))
         if a["pings"]:
             yield mk_act(dict(a, pings=0, variant="hold"))
+        if a.get("reassign"):
+            yield mk_act({k_: v_ for k_, v_ in a.items() if k_ != "reassign"})
         if len(a["flows"]) > 1:
             for f in a["flows"]:
                 if all(c["flow"] != f["name"] for c in a["calls"]):
